@@ -242,12 +242,11 @@ class error_999_visitor(pyx12.error_visitor.error_visitor):
             raise EngineError('Cannot create AK2: err_st.trn_set_id was not set')
         if err_st.trn_set_control_num is None:
             raise EngineError('Cannot create AK2: err_st.trn_set_control_num was not set')
-        if err_st.vriic is None:
-            raise EngineError('Cannot create AK2: err_st.vriic was not set')
         seg_data = pyx12.segment.Segment('AK2', '~', '*', ':')
         seg_data.set('01', err_st.trn_set_id)
         seg_data.set('02', err_st.trn_set_control_num.strip())
-        seg_data.set('03', err_st.vriic)
+        if err_st.vriic is not None:
+            seg_data.set('03', err_st.vriic)
         self.wr.Write(seg_data)
 
     def __get_st_errors(self, err_st):
